@@ -186,11 +186,21 @@ func verifyFunction(P *Program, S *Specs, key string) (res *FuncResult) {
 					}
 					h := c.ghostVar(gname, x.resolveSort(S.GhostVars[gname]))
 					if cur, old := r.st.get(h), x.rootOld.get(h); cur != old {
-						c.oblige("ghostframe", nil, r.guard, eq(cur, old), ct.Src, "ghost variable "+gname+" is changed but not listed under modifies")
+						goal := eq(cur, old)
+						if S.GhostByRef[gname] {
+							sk := c.freshConst("sk_ref", "Int")
+							goal = fmt.Sprintf("(=> (< %s %s) (= (select %s %s) (select %s %s)))", sk, x.rootW0, cur, sk, old, sk)
+						}
+						c.oblige("ghostframe", nil, r.guard, goal, ct.Src, "ghost variable "+gname+" is changed but not listed under modifies")
 					}
 				}
 				c.finalObl = true
 				for _, en := range ct.Ensures {
+					if hasTag(en.Tags, "assume") {
+						// a clause the contract only assumes (an abstraction of the function used by its callers)
+						c.note("assumption: clause of %s taken without proof: %s", key, en.Text)
+						continue
+					}
 					env := f.specEnv(r.st, x.rootOld, nil)
 					env.withResults(fn.Signature, r.vals)
 					env.prove = true
